@@ -43,7 +43,8 @@ func Sorter[V any]() SorterClassLike[V] {
 	default:
 		// Add a new bound class type.
 		class = &sorterClass_[V]{
-			defaultRanker_: Collator[V]().Make().RankValues,
+			// This class does not cache a ranker: a collator has a depth
+			// counter and must not be shared between sorters.
 		}
 		sorterClass[name] = class
 	}
@@ -58,20 +59,22 @@ func Sorter[V any]() SorterClassLike[V] {
 // Target
 
 type sorterClass_[V any] struct {
-	defaultRanker_ RankingFunction[V]
+	// This class does not define any cached constants.
 }
 
 // Constants
 
 func (c *sorterClass_[V]) DefaultRanker() RankingFunction[V] {
-	return c.defaultRanker_
+	// Each call returns the natural ranking bound to its own collator so that
+	// sorters running in different goroutines share no state.
+	return Collator[V]().Make().RankValues
 }
 
 // Constructors
 
 func (c *sorterClass_[V]) Make() SorterLike[V] {
 	return &sorter_[V]{
-		ranker_: c.defaultRanker_,
+		ranker_: c.DefaultRanker(),
 	}
 }
 
